@@ -241,6 +241,8 @@ class Program(object):
                             ast.copy_location(sub, node.value)
                             ast.fix_missing_locations(sub)
                             m.assigns[x.id] = sub
+        elif isinstance(node, ast.AnnAssign) and isinstance(node.target, ast.Name) and node.value is not None:
+            m.assigns[node.target.id] = node.value  # NAME: annotation = value
         elif isinstance(node, ast.If):
             # ``if typing.TYPE_CHECKING:`` blocks only import names for
             # comments; other module-level ifs are not used by the repo.
